@@ -88,6 +88,7 @@ func runC01(c *Ctx) {
 	c.Rule("position-established", "non-None return of Next ⇒ lastIter/lastT belong to the replica selected by useA", 3)
 	c.Rule("seek-targets", "inner seeks in Next use lastT + 1 + pen", 2)
 	c.Rule("seek-positioned", "Seek exposes samples only when positioned; inner Seek only to the current timestamp", 2)
+	c.Rule("seek-leaves-merge-state-to-next", "Seek writes no field of the iterator itself: lastT, the penalties and useA change only in Next, so a seek-first reader and a reader iterating from the start run the same merge", 1)
 	c.Rule("all-replicas-folded", "Iterator folds replicas[0] and every element of replicas[1:]", 1)
 	c.Rule("values-adjusted-only-for-counter-functions", "isCounter accepts only counter functions", 1)
 	p := c.Load("pkg/dedup", "pkg/query")
@@ -423,6 +424,46 @@ func runC01(c *Ctx) {
 		c.Observe("seek-positioned", "pkg/dedup.(*dedupSeriesIterator).Seek", p.Pos(seek.Decl.Pos()), "Seek does not call the replicas' Seek at all")
 		c.OK("seek-positioned", "pkg/dedup.(*dedupSeriesIterator).Seek#no-inner-seek", p.Pos(seek.Decl.Pos()), "")
 		c.OK("seek-positioned", "pkg/dedup.(*dedupSeriesIterator).Seek#no-inner-seek2", p.Pos(seek.Decl.Pos()), "")
+	}
+
+	// (3b) Seek leaves the merge state to Next
+	nWrites := 0
+	isRecvField := func(e ast.Expr) bool {
+		for {
+			switch x := unparen(e).(type) {
+			case *ast.SelectorExpr:
+				if id, ok := unparen(x.X).(*ast.Ident); ok && objOf(sinfo, id) == srecv {
+					return true
+				}
+				e = x.X
+			case *ast.IndexExpr:
+				e = x.X
+			case *ast.StarExpr:
+				e = x.X
+			default:
+				return false
+			}
+		}
+	}
+	ast.Inspect(seek.Decl.Body, func(n ast.Node) bool {
+		var lhs []ast.Expr
+		switch x := n.(type) {
+		case *ast.AssignStmt:
+			lhs = x.Lhs
+		case *ast.IncDecStmt:
+			lhs = []ast.Expr{x.X}
+		}
+		for _, l := range lhs {
+			if isRecvField(l) {
+				nWrites++
+				c.Bad("seek-leaves-merge-state-to-next", fmt.Sprintf("pkg/dedup.(*dedupSeriesIterator).Seek#write[%d]", nWrites), p.Pos(l.Pos()), "seek-writes-merge-state:"+exprString(l),
+					"Seek assigns "+exprString(l)+": the penalty merge is restarted or skewed at the seek target, so a reader that seeks first is handed samples that a reader iterating from the start had skipped (or the reverse)")
+			}
+		}
+		return true
+	})
+	if nWrites == 0 {
+		c.OK("seek-leaves-merge-state-to-next", "pkg/dedup.(*dedupSeriesIterator).Seek#no-state-write", p.Pos(seek.Decl.Pos()), "")
 	}
 
 	// (4) all replicas folded
